@@ -188,6 +188,7 @@ def eval_case(c):
         return 10 ** rng.uniform(math.log10(lo), math.log10(hi), size)
 
     applied = 0
+    buffers = {}
     for step in range(12):
         wi = int(rng.integers(2))
         w = worlds[wi]
@@ -197,6 +198,21 @@ def eval_case(c):
         P = val(0.3, 3000.)
         n = days2rads(val(0.3, 3000.))
         a = val(1e8, 1e11)
+        reused = False
+        if size is not None and rng.random() < 0.5 and not how.startswith('stellar') and not isinstance(sig, int):
+            # a caller that keeps one work array per world and quantity and overwrites it in place before passing it again (only the array that is
+            # passed in this step is touched: the orbit keeps references to arrays it was given earlier)
+            qn = 'P' if how.endswith('_P') else ('n' if how.endswith('_n') else 'a')
+            new_ = {'P': P, 'n': n, 'a': a}[qn]
+            key_ = (wi, qn)
+            if key_ in buffers:
+                buffers[key_][...] = new_
+                reused = True
+            else:
+                buffers[key_] = np.array(new_, dtype=float)
+            if qn == 'P': P = buffers[key_]
+            elif qn == 'n': n = buffers[key_]
+            else: a = buffers[key_]
         try:
             if how == 'orb_state_P': orb.set_state(sig, orbital_period=P)
             elif how == 'orb_state_n': orb.set_state(sig, orbital_frequency=n)
@@ -220,7 +236,7 @@ def eval_case(c):
             V('orbit-update-raised', f'step {step} {how} (signature type {type(sig).__name__}) raised {type(ex).__name__}: {str(ex)[:120]}', history=hist)
             break
         applied += 1
-        hist.append([how, type(sig).__name__, wi])
+        hist.append([how, type(sig).__name__, wi] + (['reused-buffer'] if reused else []))
         # the host's stellar orbit (when it has been set): Kepler III with the star's mass
         try:
             sa, sn, sP = orb.get_semi_major_axis(host, for_stellar_orbit=True), orb.get_orbital_frequency(host, for_stellar_orbit=True), orb.get_orbital_period(host, for_stellar_orbit=True)
